@@ -9,7 +9,8 @@ Local Open Scope string_scope.
 Definition ex_val : pyval :=
   VDict 1 [(VStr "k", VList 2 [VInt 1; VTuple 3 [VFloat (hx "0000000000000440"); VBytes "x"]]);
            (VStr "s", VSet 4 [VInt 3; VInt 4]);
-           (VInt 7, VObj 5 "vmod.Pa" [("a", VNone); ("b", VPath "pathlib.PosixPath" "/x")])].
+           (VInt 7, VObj 5 "vmod.Pa" [("a", VNone); ("b", VPath "pathlib.PosixPath" "/x");
+                                      ("arr", VNd 6 "numpyndarray" "float64" [2; 3] (hx "000000000000f03f0000000000000040"))])].
 
 Example ex_inj_dom : inj_dom ex_val.
 Proof. apply (inj_domb_sound 5). vm_compute. reflexivity. Qed.
